@@ -163,3 +163,8 @@ add('M29b', x4('SRC/?gsisx.c', "		        C[i] = exp(C[i]);\n", ""), ['C15'], no
 add('M29c', x4('SRC/?gsisx.c', "	    for (i = 0; i < n; ++i) perm_tmp[i] = perm_r[perm[i]];", "	    for (i = 0; i < n; ++i) perm_tmp[i] = perm[perm_r[i]];"), ['C15'], note='fold composes in the wrong order')
 add('M33', x4('SRC/?gsisx.c', "	    if (info1 != 0) { /* MC64 fails, call ?gsequ() later */", "	    if (info1 < 0) { /* MC64 fails, call ?gsequ() later */"), ['C15', 'C17'], note='structural singularity from MC64 ignored')
 add('M29d', [('SRC/mark_relax.c', "	for (j = jcol; j <= kcol; j++)", "	for (j = jcol; j < kcol; j++)")], ['C15'], note='last column of each relaxed supernode not marked')
+add('M32', x4('SRC/?ldperm.c', "    for (i = 0; i < nnz; ++i) --adjncy[i];\n", ""), ['C17'], note='adjncy left 1-based')
+add('M32b', x4('SRC/?ldperm.c', "    if ( info[0] == 1 ) { /* Structurally singular */\n        printf(\".. The last %d permutations:\\n\", (int)(n-num));\n	slu_PrintInt10(\"perm\", n-num, &perm[num]);\n    }",
+               "    if ( info[0] == 1 ) { /* Structurally singular */\n        printf(\".. The last %d permutations:\\n\", (int)(n-num));\n	slu_PrintInt10(\"perm\", n-num, &perm[num]);\n	SUPERLU_FREE(iw);\n	SUPERLU_FREE(dw);\n	return info[0];\n    }"), ['C17'],
+    note='early return on structural singularity leaves the caller arrays 1-based')
+add('M32c', x4('SRC/?ldperm.c', "    return info[0];\n}", "    return 0;\n}"), ['C17'], note='singularity not reported')
